@@ -240,6 +240,9 @@ pub struct Objs {
     /// per arc object: index of an atomic that the payload's `Drop` loads and increments
     #[serde(default, skip_serializing_if = "Vec::is_empty")]
     pub arc_rmw: Vec<Option<usize>>,
+    /// per arc object: the payload's `Drop` panics (tag 4242) unless the thread is unwinding
+    #[serde(default, skip_serializing_if = "Vec::is_empty")]
+    pub arc_panic: Vec<bool>,
     #[serde(default)]
     pub tracks: usize,
     #[serde(default)]
@@ -323,6 +326,9 @@ impl Program {
         }
         if !o.arc_rmw.is_empty() {
             let _ = write!(s, "arc_rmw={:?} ", o.arc_rmw);
+        }
+        if !o.arc_panic.is_empty() {
+            let _ = write!(s, "arc_panic={:?} ", o.arc_panic);
         }
         cnt!(tracks, "tr");
         cnt!(allocs, "al");
